@@ -1,3 +1,4 @@
 pub mod fs;
 pub mod map;
+pub mod names;
 pub mod stream;
